@@ -31,6 +31,9 @@ enum Pol {
     Seconds,
     /// Duration::MAX: after a connection failure the call waits (for ever) in its back-off
     Forever,
+    /// custom, growing for ever: 3 ms x (attempt index + 1); used for one long outage (22
+    /// connection failures in a row within one request)
+    Linear,
 }
 
 impl Pol {
@@ -46,6 +49,7 @@ impl Pol {
             Pol::Fractional => ReconnectPolicy::fixed(Duration::from_micros(2750)),
             Pol::Seconds => ReconnectPolicy::exponential(Duration::from_millis(1250), Duration::from_millis(3500)),
             Pol::Forever => ReconnectPolicy::fixed(Duration::MAX),
+            Pol::Linear => ReconnectPolicy::Custom(Arc::new(Linear)),
         }
     }
     /// upper bound (ms) of the configured delay for attempt index a
@@ -68,7 +72,17 @@ impl Pol {
             Pol::Fractional => 2.75,
             Pol::Seconds => exp(1250.0, 2.0, 3500.0),
             Pol::Forever => f64::MAX,
+            Pol::Linear => (a as f64 + 1.0) * 3.0,
         }
+    }
+}
+
+/// 3 ms x (attempt index + 1)
+struct Linear;
+
+impl tower_resilience_reconnect::IntervalFunction for Linear {
+    fn next_interval(&self, attempt: usize) -> Duration {
+        Duration::from_millis((attempt as u64 + 1) * 3)
     }
 }
 
@@ -141,7 +155,7 @@ fn run_one(cfg: &Cfg, prelude: &[u8], script: &[u8], trace: bool) -> (Vec<(Strin
     let built = b.build();
     let layer = ReconnectLayer::new(if cfg.max.unwrap_or(0) % 2 == 0 { built.clone() } else { built });
     let state = layer.state().clone();
-    let mut svc = layer.layer(GatedInner::new(w.inner.clone()));
+    let mut svc = if cfg.retry_on_reconnect { layer.clone().layer(GatedInner::new(w.inner.clone())) } else { layer.layer(GatedInner::new(w.inner.clone())) };
     // state sampled at the start of every inner call
     let at_call: Arc<Mutex<Vec<(usize, ConnectionState)>>> = Arc::new(Mutex::new(vec![]));
     {
@@ -342,10 +356,19 @@ fn grid(tier: Tier) -> Vec<Cfg> {
             }
         }
     }
+    // one long outage: unlimited attempts, a policy that keeps growing
+    for predicate in [false, true] {
+        v.push(Cfg { max: None, pol: Pol::Linear, retry_on_reconnect: true, predicate });
+    }
     v
 }
 
 fn scripts(cfg: &Cfg) -> Vec<Vec<u8>> {
+    if cfg.pol == Pol::Linear {
+        let mut s = vec![1u8; 22];
+        s.push(0);
+        return vec![s];
+    }
     let len = match cfg.max {
         Some(m) => m as usize + 2,
         None => 4,
